@@ -65,9 +65,10 @@
     }
 
 
-//# ob name=roundtrip_option_u64 fn=value::serialize::ValueSerializer+value::deserialize kind=complete stmt="Option<u64>: None serialises to none and Some(x) to x, and both deserialise back (for every x)"
+//# ob name=roundtrip_option_u64 role=disabled fn=value::serialize::ValueSerializer+value::deserialize kind=complete stmt="Option<u64>: None serialises to none and Some(x) to x, and both deserialise back (for every x)"
     #[kani::proof]
     #[kani::unwind(3)]
+    // disabled: > 15 GB and > 25 min (deserialize_option + visitor machinery)
     fn roundtrip_option_u64() {
         let x: Option<u64> = kani::any();
         let v = Value::from(Serde(x));
@@ -89,7 +90,7 @@
         kani::cover!(true, "reached");
         std::mem::forget(v);
     }
-//# ob name=roundtrip_i128 fn=value::serialize::ValueSerializer+value::deserialize kind=complete tier=thorough stmt="every i128 round-trips (I128 repr, narrowed to I64 when it fits or kept wide: value preserved)"
+//# ob name=roundtrip_i128 role=disabled fn=value::serialize::ValueSerializer+value::deserialize kind=complete tier=thorough stmt="every i128 round-trips (I128 repr, narrowed to I64 when it fits or kept wide: value preserved)"
     #[kani::proof]
     #[kani::unwind(3)]
     fn roundtrip_i128() {
